@@ -138,6 +138,33 @@ Definition run_case (s : sexp) : sexp :=
       | _, _ => v_badcase
       end
     else v_badcase
+  | L [S n; tv; tv'; L qs] =>
+    (* (cleanq before after ((id x y #txt) ...)): every id-based getter was called BEFORE CleanSections
+       (anything an implementation remembers from those calls is stale now), then the markers were
+       removed, then GetHWCxy / GetHWCtext were asked for every id of the old list and an absent one:
+       they must answer from the component list as it is NOW (first component with that id; a removed
+       marker is not found: (-1,-1) and "") - "keeping all others", as seen through the look-ups *)
+    if bytes_eqb n (str "cleanq") then
+      match dec_topo tv, dec_topo tv' with
+      | Some t, Some t' =>
+        if negb (clean_ok t t') then v_specfail "c14-clean" (L [I (zlen (tpHWc t)); I (zlen (tpHWc t'))])
+        else
+          let want (id : Z) : Z * Z * list Z :=
+            match find (fun h => hId h =? id) (tpHWc t') with
+            | Some h => (hX h, hY h, hTxt h)
+            | None => (-1, -1, [])
+            end in
+          let bad := existsb (fun q => match q with
+                                       | L [I id; I x; I y; B txt] =>
+                                         let '(wx, wy, wt) := want id in negb ((x =? wx) && (y =? wy) && bytes_eqb txt wt)
+                                       | _ => true
+                                       end) qs in
+          if bad then v_specfail "c14-clean-lookups" (L qs)
+          else if topo_eqb (clean_sections t) t' then v_ok (existsb is_marker (tpHWc t) && negb (forallb is_marker (tpHWc t)))
+          else v_mismatch (sym "clean")
+      | _, _ => v_badcase
+      end
+    else v_badcase
   | L [S n; tv; B j1; tree; tv2; B j2; B j3] =>
     if bytes_eqb n (str "json") then
       match val_of_sexp topo_schema tv, val_of_sexp topo_schema tv2 with
